@@ -256,8 +256,21 @@ static void op_c05_fix(Exec& x, const Json& op, int)
 			if (!present) {
 				// a missing file that fix did not even try (e.g. unsynced and -e) is not "left under its name"
 				if (touched || !filtered) x.violation(P, "missing-not-reported", cl + ": " + rel + " is still missing and was not reported unrecoverable");
-			} else
-				x.violation(P, "wrong-data-not-reported", cl + ": " + rel + " holds other bytes than the recorded version and was not reported unrecoverable");
+			} else {
+				// the same inode under two names that the content records as two different files (a hard link made after the
+				// sync over a recorded name): fix repairs each name in place and the second repair rewrites the first
+				std::string shared;
+				for (auto& g : c.files) {
+					const DiskCfg* dg = x.sb.disk(c.maps[g.map_idx].name);
+					if (!dg || &g == &f) continue;
+					auto itg = after.find(dg->top + "/" + g.sub);
+					if (itg != after.end() && itg->second.type == 'f' && ita != after.end() && itg->second.vino == ita->second.vino && itg->second.vino != 0) shared = dg->top + "/" + g.sub;
+				}
+				bool recorded_as_link = false;
+				for (auto& l : c.links) if (l.hard) { const DiskCfg* dl = x.sb.disk(c.maps[l.map_idx].name); if (dl && (dl->top + "/" + l.sub == shared || dl->top + "/" + l.sub == rel)) recorded_as_link = true; }
+				x.violation(P, "wrong-data-not-reported", cl + ": " + rel + " holds other bytes than the recorded version and was not reported unrecoverable"
+					+ (!shared.empty() && !recorded_as_link ? " [it shares its inode with " + shared + ", recorded as a different file: fixing one name in place rewrote the other]" : ""));
+			}
 		}
 		if (is_reported) {
 			x.probe("c05.unrecoverable_reported");
